@@ -176,6 +176,7 @@ func c17Generic(r *Run, db *SiteDB, info *types.Info, fi *FuncInfo) {
 		}
 	}
 	delegated := false
+	var helper *FuncInfo
 	ast.Inspect(outer.Body, func(n ast.Node) bool {
 		if c, ok := n.(*ast.CallExpr); ok {
 			k := calleeKey(info, c)
@@ -188,7 +189,58 @@ func c17Generic(r *Run, db *SiteDB, info *types.Info, fi *FuncInfo) {
 		}
 		return true
 	})
-	okEsc, escPos := noLoopEscape(outer)
+	if inner == nil && !delegated {
+		// the per-buffer fill may live in a private helper fill(r, buf) whose count is added and
+		// whose error ends ReadFrom: the helper is judged by the same rules, ReadFrom by the
+		// rules about its returns
+		for _, st := range outer.Body.List {
+			ast.Inspect(st, func(n ast.Node) bool {
+				c, ok := n.(*ast.CallExpr)
+				if !ok || len(c.Args) != 2 || norm(c.Args[1]) != bufName {
+					return true
+				}
+				h := r.L.FuncOf(callee(info, c))
+				if h == nil || h.Decl.Body == nil || pinnedFuncs[h.Key] || h.Decl.Type.Params == nil || len(h.Decl.Body.List) < 2 {
+					return true
+				}
+				var hBuf string
+				idx := 0
+				for _, f := range h.Decl.Type.Params.List {
+					for _, nm := range f.Names {
+						if idx == 1 {
+							hBuf = nm.Name
+						}
+						idx++
+					}
+				}
+				var hInner *ast.ForStmt
+				for _, hs := range h.Decl.Body.List {
+					if fs, ok := hs.(*ast.ForStmt); ok {
+						hInner = fs
+					}
+				}
+				hFinal, _ := h.Decl.Body.List[len(h.Decl.Body.List)-1].(*ast.ReturnStmt)
+				if hInner == nil || hFinal == nil || hBuf == "" {
+					return true
+				}
+				helper = h
+				c17Fill(r, db, info, h, hInner, hInner, hBuf, hFinal, false, norm)
+				// the helper's error ends ReadFrom: nothing it returned is still untested when
+				// the success return is reached
+				pend, seen := pendingErrors(&ServerModel{L: r.L, DB: db, Info: info}, fi, func(k string) bool { return k == h.Key }, final)
+				r.check(seen && len(pend) == 0, "r2", "Buffers.ReadFrom: an error of "+h.Decl.Name.Name+" ends the read", c.Pos(), "the error result is tested before the next buffer / the success return",
+					"the error returned by "+h.Decl.Name.Name+" is not tested on every path to the success return: a partially filled buffer would be reported as a complete read")
+				return false
+			})
+		}
+	}
+	c17Fill(r, db, info, fi, outer, inner, bufName, final, delegated || helper != nil, norm)
+}
+
+// c17Fill judges one function that contains a fill loop: ReadFrom itself (host = the range over
+// the buffers) or a private helper that fills one buffer (host = its loop).
+func c17Fill(r *Run, db *SiteDB, info *types.Info, fi *FuncInfo, host ast.Node, inner *ast.ForStmt, bufName string, final *ast.ReturnStmt, delegated bool, norm func(ast.Node) string) {
+	okEsc, escPos := noLoopEscape(host)
 	r.check(okEsc, "r2", "Buffers.ReadFrom: the fill loops are left only by completion or an error return", escPos, "no break/goto inside the fill loops", "a break/goto leaves the fill loop early: the nil-error return after it could be reached with buffers not yet full")
 	// the only nil-error return is the final one
 	nNil := 0
@@ -211,7 +263,7 @@ func c17Generic(r *Run, db *SiteDB, info *types.Info, fi *FuncInfo) {
 			r.check(ex.Ret == final, "r2", key, ex.Ret.Pos(), "the nil-error return is the statement after the fill loops", "a nil error is returned from inside the function before the fill loops have completed: a short delivery yields a truncated message")
 			continue
 		}
-		if containsNode(outer, ex.Ret) {
+		if containsNode(host, ex.Ret) {
 			nonNil := false
 			if sel, ok := e.(*ast.SelectorExpr); ok && norm(sel) == "io.EOF" {
 				nonNil = true
@@ -242,11 +294,11 @@ func c17Generic(r *Run, db *SiteDB, info *types.Info, fi *FuncInfo) {
 	}
 	r.check(nNil == 1, "r2", "Buffers.ReadFrom: exactly one success return", fi.Decl.Pos(), "1", fmt.Sprintf("%d returns with a nil error", nNil))
 	if delegated {
-		r.ok("r2", "Buffers.ReadFrom: each buffer is filled completely", outer.Pos(), "delegated to io.ReadFull / io.ReadAtLeast(r, buf, len(buf))")
+		r.ok("r2", "Buffers.ReadFrom: each buffer is filled completely", host.Pos(), "delegated to io.ReadFull / io.ReadAtLeast(r, buf, len(buf))")
 		return
 	}
 	if inner == nil || acc == "" {
-		r.fail("r2", "Buffers.ReadFrom: each buffer is filled completely", outer.Pos(), "the per-buffer loop 'for filled := 0; filled < len(buf);' (or io.ReadFull) was not found")
+		r.fail("r2", "Buffers.ReadFrom: each buffer is filled completely", host.Pos(), "the per-buffer loop 'for filled := 0; filled < len(buf);' (or io.ReadFull) was not found")
 		return
 	}
 	r.check(inner.Post == nil || true, "r2", "Buffers.ReadFrom: each buffer is filled completely", inner.Pos(), "loops while "+norm(inner.Cond), "")
